@@ -31,7 +31,7 @@
 (* Shard/NShards split the universe over processes.                        *)
 (***************************************************************************)
 EXTENDS Sweep, Json
-CONSTANTS Mode, MinKeys, MaxKeys, MaxLen, MaxEmpty, NVals, Lists, Opts, NOps, Shard, NShards, MaxSteps, ShapeUnary
+CONSTANTS Mode, MinKeys, MaxKeys, MaxLen, MaxEmpty, NVals, Lists, Opts, NOps, Shard, NShards, MaxSteps, ShapeSet
 VARIABLES case, out
 vars == <<case, out>>
 
@@ -118,37 +118,40 @@ InShard(n)  == (n % NShards) = Shard
 
 ---------------------------------------------------------------------------
 (* the sum expressions of a multi case: exactly the leaves lo..hi in order, inner nodes nested at most d deep; *)
-(* binary nodes are spelled "+", "combine" or "MultiSweep", unary and ternary ones "MultiSweep"; unary nodes    *)
-(* (MultiSweep(x)) only when ShapeUnary = 1                                                                    *)
+(* binary nodes are spelled by one of `sps` ("+", "combine", "MultiSweep"), ternary and - when `unary` - unary  *)
+(* nodes "MultiSweep".  ShapeSet = "all": every mixture of spellings, with unary nodes; "uniform": the binary  *)
+(* nodes of one expression are all spelled the same way, no unary nodes.                                       *)
 RECURSIVE SeqProd(_)             \* all sequences that pick one element from each set of a sequence of sets
 SeqProd(sets) == IF sets = <<>> THEN {<<>>} ELSE {<<x>> \o r : x \in Head(sets), r \in SeqProd(Tail(sets))}
 RECURSIVE Cuts(_, _, _)          \* lo..hi cut into m consecutive non-empty intervals <<lo_j, hi_j>>
 Cuts(lo, hi, m) == IF m = 1 THEN {<< <<lo, hi>> >>}
                    ELSE UNION {{<< <<lo, c>> >> \o r : r \in Cuts(c + 1, hi, m - 1)} : c \in lo..(hi - m + 1)}
-Spellings(m) == IF m = 2 THEN {"+", "combine", "MultiSweep"} ELSE {"MultiSweep"}
-RECURSIVE SumExprsOn(_, _, _)
-SumExprsOn(d, lo, hi) ==
+BinarySpellings == {"+", "combine", "MultiSweep"}
+RECURSIVE SumExprsOn(_, _, _, _, _)
+SumExprsOn(d, lo, hi, sps, unary) ==
     (IF lo = hi THEN {Leaf(lo)} ELSE {}) \cup
     (IF d = 0 THEN {} ELSE
-     UNION {UNION {{Node(op, ch) : op \in Spellings(m),
-                                   ch \in SeqProd([j \in 1..m |-> SumExprsOn(d - 1, cut[j][1], cut[j][2])])}
+     UNION {UNION {{Node(op, ch) : op \in (IF m = 2 THEN sps ELSE {"MultiSweep"}),
+                                   ch \in SeqProd([j \in 1..m |-> SumExprsOn(d - 1, cut[j][1], cut[j][2], sps, unary)])}
                    : cut \in Cuts(lo, hi, m)}
-            : m \in (IF ShapeUnary = 1 THEN 1 ELSE 2)..(IF hi - lo + 1 < 3 THEN hi - lo + 1 ELSE 3)})
-SumExprs(n) == SumExprsOn(2, 1, n) \ {Leaf(1)}
+            : m \in (IF unary THEN 1 ELSE 2)..(IF hi - lo + 1 < 3 THEN hi - lo + 1 ELSE 3)})
+SumExprs(n) == (IF ShapeSet = "all" THEN SumExprsOn(2, 1, n, BinarySpellings, TRUE)
+                ELSE UNION {SumExprsOn(2, 1, n, {sp}, FALSE) : sp \in BinarySpellings}) \ {Leaf(1)}
 Shapes      == SumExprs(NOps)                  \* constant: evaluated once per run
 
-(* the operands of the histories: two fixed triples (the sums never look inside an operand): one with *)
-(* plain / zipped-singleton / option-carrying operands of different lengths, one with operands that   *)
-(* enumerate nothing (an empty value list, no items at all) next to an option-carrying one            *)
+(* the operands of the histories (the sums never look inside an operand): a triple of a plain, an option-   *)
+(* carrying zipped-singleton and a one-combination operand; with MaxEmpty >= 1 also a triple with operands   *)
+(* that enumerate nothing (an empty value list, no items at all) next to an option-carrying one              *)
 It(k, v)    == <<[k |-> k, v |-> v]>>
 Two(items, ix) == O(CFresh(ix), DConst(items, ix), EFirst(items))
 HistTriples ==
     {<<Mk(It("a", <<11, 12>>), NoDims, FALSE, O(<<>>, <<>>, <<>>)),
        Mk(It("b", <<21, 22>>), << <<"b">> >>, FALSE, Two(It("b", <<21, 22>>), 2)),
-       Mk(It("c", <<31>>), << <<"c">> >>, TRUE, O(<<>>, <<>>, <<>>))>>,
-     <<Mk(It("a", <<>>), NoDims, FALSE, O(<<>>, <<>>, <<>>)),
-       Mk(<<>>, NoDims, FALSE, O(<<>>, <<>>, <<>>)),
-       Mk(It("c", <<31, 32>>), NoDims, FALSE, Two(It("c", <<31, 32>>), 3))>>}
+       Mk(It("c", <<31>>), << <<"c">> >>, TRUE, O(<<>>, <<>>, <<>>))>>} \cup
+    (IF MaxEmpty = 0 THEN {} ELSE
+     {<<Mk(It("a", <<>>), NoDims, FALSE, O(<<>>, <<>>, <<>>)),
+        Mk(<<>>, NoDims, FALSE, O(<<>>, <<>>, <<>>)),
+        Mk(It("c", <<31, 32>>), NoDims, FALSE, Two(It("c", <<31, 32>>), 3))>>})
 (* the steps possible with n objects *)
 SumOps(n)   == {[f |-> "sum", a |-> <<x, y>>] : x, y \in 1..n}
 MultiOps(n) == {[f |-> "multi", a |-> a] : a \in UNION {[1..m -> 1..n] : m \in 0..2}}
